@@ -50,7 +50,8 @@ EdPubChecks(e) ==
     LET w == B2N(e.witness)   isSq == e.wkind = "sqrt"
         y == YOf(e.bytes)     inv == B2N(e.inv)
     IN  << <<"witness is valid (projection)", TRUE, IF isSq THEN WitnessSquare(e.bytes, w) ELSE WitnessNonSquare(e.bytes, w)>>,
-           <<"reports failure exactly for undecodable keys", isSq, e.ok>> >>
+           <<"reports failure exactly for undecodable keys", isSq, e.ok>>,
+           <<"the caller's key is not modified", TRUE, e.unchanged>> >>
         \o (IF e.ok /\ isSq
             THEN << <<"inverse witness", TRUE, MontUWitnessOk(y, inv)>>,
                     <<"out = canonical (1+y)/(1-y), 0 when y = 1", ToBytes(MontU(y, inv), 32), e.out>> >>
